@@ -1,12 +1,183 @@
 /- Driver operations of property C16 (ops are named "c16.<name>"). Core + Lean.Data.Json only. -/
 import Reamber.Util.Json
+import Reamber.Spec.TList
+import Reamber.Generated.Schemas
 
-open Lean Reamber.J
+open Lean Reamber.J Reamber.TList
 
 namespace Reamber.C16
 
-def handle (op : String) (_j : Json) : Except String Json :=
+/-! wire format: cell = null | {"q":[n,d]} | {"s":str} | {"b":bool} | {"l":[str]};  record = [[name, cell]…];
+table = [[label, record]…]; operation = {"k": kind, …} -/
+
+def cellOf? (j : Json) : Except String Cell :=
+  match j with
+  | Json.null => .ok .nan
+  | _ =>
+    match j.getObjVal? "q" with
+    | .ok q => do .ok (.num (← ratOf? q))
+    | .error _ =>
+      match j.getObjVal? "s" with
+      | .ok s => do .ok (.str (← strOf? s))
+      | .error _ =>
+        match j.getObjVal? "b" with
+        | .ok b => do .ok (.bool (← boolOf? b))
+        | .error _ =>
+          match j.getObjVal? "l" with
+          | .ok l => do .ok (.strs (← arrOf? strOf? l))
+          | .error _ => .error s!"not a cell: {j}"
+
+def cellToJson : Cell → Json
+  | .nan => Json.null
+  | .num q => obj [("q", ratToJson q)]
+  | .str s => obj [("s", Json.str s)]
+  | .bool b => obj [("b", Json.bool b)]
+  | .strs l => obj [("l", listToJson Json.str l)]
+
+def pairOf? {α β : Type} (f : Json → Except String α) (g : Json → Except String β) (j : Json) : Except String (α × β) :=
+  match j with
+  | Json.arr #[a, b] => do .ok (← f a, ← g b)
+  | _ => .error s!"not a pair: {j}"
+
+def recOf? (j : Json) : Except String Rec := arrOf? (pairOf? strOf? cellOf?) j
+def recToJson (r : Rec) : Json := listToJson (fun kv => Json.arr #[Json.str kv.1, cellToJson kv.2]) r
+def tblOf? (j : Json) : Except String (Tbl Rec) := arrOf? (pairOf? intOf? recOf?) j
+def tblToJson (t : Tbl Rec) : Json := listToJson (fun r => Json.arr #[intToJson r.1, recToJson r.2]) t
+def rowsOf? (j : Json) : Except String (List Rec) := arrOf? recOf? j
+
+def optInt (j : Json) (k : String) : Except String (Option Int) := optOf? intOf? (fieldD j k Json.null)
+
+def opOf? (j : Json) : Except String (Op Rec) := do
+  let k ← getStr j "k"
+  match k with
+  | "slice" => .ok (.slice (← optInt j "a") (← optInt j "b") (← optInt j "c"))
+  | "after" => .ok (.after (← getRat j "x") (← getBool j "incl"))
+  | "before" => .ok (.before (← getRat j "x") (← getBool j "incl"))
+  | "between" => .ok (.between (← getRat j "lo") (← getRat j "hi") (← getBool j "il") (← getBool j "ih"))
+  | "hafter" => .ok (.hAfter (← getRat j "x") (← getBool j "incl") (← getBool j "tail"))
+  | "hbefore" => .ok (.hBefore (← getRat j "x") (← getBool j "incl") (← getBool j "head"))
+  | "hbetween" => .ok (.hBetween (← getRat j "lo") (← getRat j "hi") (← getBool j "il") (← getBool j "ih")
+                        (← getBool j "head") (← getBool j "tail"))
+  | "sorted" => .ok (.sorted (← getBool j "rev"))
+  | "append" => .ok (.append (← rowsOf? (← field j "ys")) (← getBool j "sort"))
+  | _ => .error s!"unknown operation kind {k}"
+
+def resJson {α} (f : α → Json) : Except Err α → Json
+  | .ok a => okJson (f a)
+  | .error e => errJson e.toString
+
+def errOf? (s : String) : Except String Err :=
+  match s with
+  | "index" => .ok .index
+  | "value" => .ok .value
+  | "type" => .ok .type
+  | _ => .error s!"unknown error class {s}"
+
+/-- {"ok": rows} | {"err": cls}; an error class outside the model's enum can never satisfy a spec -/
+def resRowsOf? (j : Json) : Except String (Option (Except Err (List Rec))) :=
+  match j.getObjVal? "ok" with
+  | .ok v => do .ok (some (.ok (← rowsOf? v)))
+  | .error _ => do
+    let s ← getStr j "err"
+    match errOf? s with
+    | .ok e => .ok (some (.error e))
+    | .error _ => .ok none
+
+def schemaOf (name : String) : Except String Schema :=
+  match Reamber.Generated.schemas.find? (fun s => s.name == name) with
+  | some s => .ok s
+  | none => .error s!"no generated schema for list class {name}"
+
+def frameToJson (f : Frame) : Json := obj [("cols", listToJson Json.str f.cols), ("rows", tblToJson f.rows)]
+
+def optRatToJson : Option Rat → Json := optToJson ratToJson
+
+def handle (op : String) (j : Json) : Except String Json :=
   match op with
+  | "c16.step" => do
+      let t ← tblOf? (← field j "rows")
+      let o ← opOf? (← field j "o")
+      .ok (resJson tblToJson (step recOff recLen o t))
+  | "c16.run" => do
+      let t ← tblOf? (← field j "rows")
+      let os ← getArr opOf? j "ops"
+      .ok (resJson tblToJson (run recOff recLen os t))
+  | "c16.obs" => do
+      let s ← schemaOf (← getStr j "cls")
+      let t ← tblOf? (← field j "rows")
+      let idx ← getArr intOf? j "idx"
+      .ok (okJson (obj [
+        ("len", natToJson (lenT t)),
+        ("first", optRatToJson (firstOffset recOff t)),
+        ("last", match s.kind with
+          | .timed => okJson (optRatToJson (lastOffset recOff t))
+          | .hold => resJson ratToJson (hLastOffset recOff recLen t)),
+        ("gets", listToJson (fun i => resJson recToJson (getItem s t i)) idx),
+        ("iter", resJson (listToJson recToJson) (iterItems s t))]))
+  | "c16.spec_step" => do
+      let xs ← rowsOf? (← field j "prev")
+      let o ← opOf? (← field j "o")
+      match ← resRowsOf? (← field j "next") with
+      | none => .ok (okJson (Json.bool false))
+      | some r => .ok (okJson (Json.bool (specStepB recOff recLen o xs r)))
+  | "c16.spec_obs" => do
+      let s ← schemaOf (← getStr j "cls")
+      let xs ← rowsOf? (← field j "rows")
+      let n ← getNat j "len"
+      let first ← getOptRat j "first"
+      -- last: {"ok": q|null} | {"err": cls}
+      let lastJ ← field j "last"
+      let lastOk : Bool ← match lastJ.getObjVal? "err" with
+        | .ok _ => .ok (s.kind == .hold && xs.isEmpty)          -- "no value" on an empty list may be an exception
+        | .error _ => do
+          let v ← optOf? ratOf? (fieldD lastJ "ok" Json.null)
+          match s.kind with
+          | .timed => .ok (specLastB recOff xs v)
+          | .hold => .ok (specLastB (fun a => recOff a + recLen a) xs v)
+      -- gets: [[i, {"ok": item} | {"err": cls}]]
+      let gets ← getArr (pairOf? intOf? (fun g => match g.getObjVal? "ok" with
+          | .ok v => do .ok (some (← recOf? v))
+          | .error _ => .ok none)) j "gets"
+      let getsOk := gets.all fun (i, it) =>
+        match pyGet xs i, it with
+        | .ok row, some item => itemCarries (row.map (·.1)) row item
+        | .error _, none => true
+        | _, _ => false
+      -- iter: [item] in order
+      let it ← getArr recOf? j "iter"
+      let iterOk := it.length == xs.length &&
+        (xs.zip it).all (fun p => itemCarries s.declaredNames p.1 p.2)
+      .ok (okJson (obj [("len", Json.bool (n == xs.length)), ("first", Json.bool (specFirstB recOff xs first)),
+                        ("last", Json.bool lastOk), ("gets", Json.bool getsOk), ("iter", Json.bool iterOk)]))
+  | "c16.mkitem" => do
+      let s ← schemaOf (← getStr j "cls")
+      let kw ← recOf? (← field j "kw")
+      .ok (resJson recToJson (mkItem s.params kw))
+  | "c16.fields" => do
+      let s ← schemaOf (← getStr j "cls")
+      let how ← getStr j "how"
+      match how with
+      | "nil" => .ok (okJson (frameToJson (emptyFrame s)))
+      | "empty" => .ok (okJson (frameToJson (emptyF s (← getNat j "n"))))
+      | "items" => do
+          let kws ← getArr recOf? j "items"
+          match mapE (mkItem s.params) kws with
+          | .error e => .ok (errJson e.toString)
+          | .ok items => .ok (okJson (frameToJson (fromItemsF s items)))
+      | "dict" => do
+          let d ← getArr (pairOf? strOf? (arrOf? cellOf?)) j "dict"
+          .ok (resJson frameToJson (fromDictF s d))
+      | _ => .error s!"unknown construction {how}"
+  | "c16.spec_fields" => do
+      let s ← schemaOf (← getStr j "cls")
+      let cols ← getArr strOf? j "cols"
+      .ok (okJson (Json.bool (hasDeclaredFields s cols)))
+  | "c16.schema" => do
+      let s ← schemaOf (← getStr j "cls")
+      .ok (okJson (obj [("kind", Json.str (match s.kind with | .timed => "timed" | .hold => "hold")),
+                        ("declared", listToJson Json.str s.declaredNames),
+                        ("allowed", listToJson Json.str s.allowed),
+                        ("params", listToJson Json.str s.paramNames)]))
   | _ => .error s!"unknown op {op}"
 
 end Reamber.C16
